@@ -19,3 +19,12 @@ LEVEL["C04"] = ("All-paths rules on the CFG of the writer constructor (lock acqu
                 "is non-blocking by default so a second writer gets LockError instead of hanging.")
 NOTE["C04"] = ("Not decided: fairness/timing of try_for, flock semantics across processes, lock leak when commit() itself "
                "raises. stdlib lock defaults come from a 6-entry table.")
+LEVEL["C01"] = ("Typestate/CFG rules over every composite matcher class and every mutator it defines or inherits "
+                "(a cursor move is followed by the class's realignment step on every path; helper preconditions are "
+                "established at every call site), deletion filtering at every posting source and document iterator, "
+                "and segment-offset value flow in docs_for_query / MultiMatcher / all collectors. These are the "
+                "structural ways a wrong document enters or leaves a result set on paths (limited search, quality "
+                "skips, multi-segment) that the tests never take.")
+NOTE["C01"] = ("Not decided: arithmetic inside the alignment helpers, phrase/slop semantics, wildcard/regex/fuzzy "
+               "expansion, range term enumeration (value-level). Alignment specs per matcher base class are a frozen "
+               "table (wv/matchers.py). NestedChildMatcher is not covered by R1 (conditional realignment on own cursors).")
